@@ -280,13 +280,26 @@ func check14(c *Case, o *Obs, rec Rec) (vs []viol, inconclusive string) {
 		}
 	}
 
-	// 3. header / trailer metadata reaches the client
+	// 3. header / trailer metadata reaches the client, as it was when the
+	// handler made the call (later changes to the handler's own MD object
+	// must not show)
+	how := "SetHeader"
+	if sc.SendHdr {
+		how = "SendHeader"
+	}
 	checkSet := func(kvs []KV, view map[string][]string, obsName, cls string) {
 		for _, kv := range kvs {
 			if _, res := reservedForged[kv.K]; res {
 				continue
 			}
 			kc := cls
+			if sc.Mutate != "" {
+				call := "SetTrailer"
+				if obsName == "header" {
+					call = how
+				}
+				kc = "md-" + sc.Mutate + "-after-" + call
+			}
 			if sameKey[kv.K] {
 				if o.TrailersOnly {
 					continue // one header block carries both sets: the key is ambiguous
@@ -295,6 +308,10 @@ func check14(c *Case, o *Obs, rec Rec) (vs []viol, inconclusive string) {
 					kc = "key-in-header-and-trailer"
 				}
 			}
+			vc := kc + "," + kvClass(kv)
+			if sc.Mutate != "" {
+				vc = kc
+			}
 			vals, ok := view[kv.K]
 			if !ok {
 				add(obsName+"-missing", kc, fmt.Sprintf("%s metadata %+q=%s set by the handler did not reach the client; client saw keys %+q", obsName, kv.K, showVals(kv.V), sortedKeys(view)))
@@ -302,23 +319,30 @@ func check14(c *Case, o *Obs, rec Rec) (vs []viol, inconclusive string) {
 			}
 			got, err := decodeVals(kv.K, vals, o.BinDecoded)
 			if err != nil {
-				add(obsName+"-value", kc+","+kvClass(kv), err.Error())
+				add(obsName+"-value", vc, err.Error())
 				continue
 			}
 			if !sameVals(got, kv.V) {
-				add(obsName+"-value", kc+","+kvClass(kv), fmt.Sprintf("%s metadata %+q: client saw %s, handler set %s", obsName, kv.K, showVals(got), showVals(kv.V)))
+				add(obsName+"-value", vc, fmt.Sprintf("%s metadata %+q: client saw %s, handler set %s", obsName, kv.K, showVals(got), showVals(kv.V)))
 			}
 		}
-	}
-	how := "SetHeader"
-	if sc.SendHdr {
-		how = "SendHeader"
 	}
 	checkSet(sc.Hdr, o.MDHdr, "header", oc+","+how)
 	if !isHTTP && !blind {
 		checkSet(sc.Trl, o.MDTrl, "trailer", "custom-key")
 		if rec.Sent >= 1 {
 			checkSet(sc.TrlLate, o.MDTrl, "trailer", "custom-key")
+		}
+	}
+	// 4. keys the handler put into its MD object only after the call
+	for _, k := range []string{scratchKey, scratchBinKey} {
+		if v, ok := o.MDHdr[k]; ok {
+			add("header-extra", "md-"+sc.Mutate+"-after-call", fmt.Sprintf("key %+q=%+q, added by the handler to its own metadata.MD after the Set/Send call, reached the client as header metadata", k, v))
+			break
+		}
+		if v, ok := o.MDTrl[k]; ok && !isHTTP && !blind {
+			add("trailer-extra", "md-"+sc.Mutate+"-after-call", fmt.Sprintf("key %+q=%+q, added by the handler to its own metadata.MD after the Set/Send call, reached the client as trailer metadata", k, v))
+			break
 		}
 	}
 	return vs, ""
@@ -572,7 +596,7 @@ func (g *c14Runner) binSweep(proto string, wide bool, vals [][]byte, class strin
 
 // RunC14 is the metadata fidelity check.
 func RunC14(r *mon.Run) {
-	r.Rule = "(in) requests carrying 1-6 custom headers (names over the HTTP token alphabet in mixed case, 1-3 values, '-bin' names with every byte string of length 0-1 (thorough: 0-2) plus boundary/random strings of length 3..500, each sent as padded and as unpadded base64) on HTTP transcoding, raw gRPC (in-process, h2c), grpc-go, gRPC-web binary/text (in-process, HTTP/1 socket); the handler's metadata.FromIncomingContext is compared with what was sent. (out) a scripted handler sets 0-4 header keys (SetHeader or SendHeader) and 0-4 trailer keys before / after its first reply, optionally one protocol-reserved key with a forged value, then succeeds or fails before / after the first reply; the client (HTTP response headers, grpc-go Header/Trailer call options, gRPC-web headers + trailer frame) must see every non-reserved key with byte-equal values, never the forged value, and the handler's real status. Non-trivial = the scripted handler ran; distinct = (direction, protocol, codec, method, name/value class | outcome, header/trailer set shape, reserved key)"
+	r.Rule = "(in) requests carrying 1-6 custom headers (names over the HTTP token alphabet in mixed case, 1-3 values, '-bin' names with every byte string of length 0-1 (thorough: 0-2) plus boundary/random strings of length 3..500, each sent as padded and as unpadded base64) on HTTP transcoding, raw gRPC (in-process, h2c), grpc-go, gRPC-web binary/text (in-process, HTTP/1 socket); the handler's metadata.FromIncomingContext is compared with what was sent. (out) a scripted handler sets 0-4 header keys (SetHeader or SendHeader) and 0-4 trailer keys before / after its first reply, optionally one protocol-reserved key with a forged value, optionally keeps mutating / re-using the metadata.MD object it passed in (values overwritten in place, slices replaced, keys added, keys deleted, header MD refilled and passed to SetTrailer), then succeeds or fails before / after the first reply; the client (HTTP response headers, grpc-go Header/Trailer call options, gRPC-web headers + trailer frame) must see every non-reserved key with the values it had at the time of the call, byte-equal, no key added later, never the forged value, and the handler's real status. Non-trivial = the scripted handler ran; distinct = (direction, protocol, codec, method, name/value class | outcome, header/trailer set shape, reserved key)"
 	r.Floor = 120
 	env, err := newEnv()
 	if err != nil {
@@ -661,6 +685,7 @@ func RunC14(r *mon.Run) {
 		replies int
 	}{{0, 1}, {0, 2}, {5, 0}, {13, 0}, {3, 1}, {5, 2}}
 	nRandOut := r.Pick(120, 900)
+	mutations := []string{"overwrite", "replace", "add", "delete", "reuse"}
 	for _, v := range ovs {
 		mk := func(oc struct {
 			code    uint32
@@ -699,7 +724,32 @@ func RunC14(r *mon.Run) {
 					c.Script.HdrLate = genOutSet(rng, 1, used)
 				}
 			}
+			if rng.Intn(3) == 0 {
+				c.Script.Mutate = mutations[rng.Intn(len(mutations))]
+				c.Class = "md-" + c.Script.Mutate
+			}
 			g.exec(c)
+		}
+		// the handler keeps using the MD object it passed in
+		for _, mut := range mutations {
+			for _, oc := range outcomes {
+				if v.method == "Echo" && oc.replies > 0 && oc.code != 0 {
+					continue
+				}
+				for _, send := range []bool{false, true} {
+					c := mk(oc)
+					c.Class = "md-" + mut
+					used := map[string]bool{}
+					c.Script.Hdr = genOutSet(rng, 1+rng.Intn(3), used)
+					c.Script.Trl = genOutSet(rng, 1+rng.Intn(3), used)
+					c.Script.SendHdr = send
+					c.Script.Mutate = mut
+					if v.method != "Echo" && oc.replies > 0 && rng.Intn(2) == 0 {
+						c.Script.TrlLate = genOutSet(rng, 1+rng.Intn(2), used)
+					}
+					g.exec(c)
+				}
+			}
 		}
 		// a trailer key that is also a header key
 		for _, oc := range outcomes {
